@@ -27,8 +27,8 @@ func init() {
 
 // mirrorExclusions: types whose automaton cannot be compared alone, with the reason.
 var mirrorExclusions = map[string]string{
-	"request":       "dispatches to a dynamic body (protocolBody); its header is covered by C09.keys, each body by its own entry",
-	"ControlRecord": "decode reads two streams (key and value decoders); encode writes one",
+	"request":                          "dispatches to a dynamic body (protocolBody); its header is covered by C09.keys, each body by its own entry",
+	"ControlRecord":                    "decode reads two streams (key and value decoders); encode writes one",
 	"alterPartitionReassignmentsBlock": "nested-only helper: its trailing tagged-field array is written by the block but read by its parent; compared through AlterPartitionReassignmentsRequest",
 }
 
